@@ -13,9 +13,22 @@ DEFAULT_STEP = 1.5 * np.pi
 DEFAULT_EDGE = np.pi / 12
 
 
-def cv_op(phase_col, step, good, edge, mask_col):
-    return proto.op('CV', {'step': step, 'good': int(bool(good)), 'edge': edge, 'twopi': TWO_PI,
-                           'endlo': TWO_PI - edge},
+_RESOLVED = object()
+
+
+def cv_op(phase_col, step, good, edge, mask_col, arg=_RESOLVED):
+    """The model's CV op. With `arg` (the phase_step argument exactly as the caller of get_cycle_vector wrote it; None = omitted)
+    the option is resolved BY THE MODEL (Cycles.resolveStep: `dstep=` carries the documented default, `step=` is sent only for an
+    explicit value - 0 is explicit): the theorems C12.explicit_step_used_as_given / partition_every_step speak about that route.
+    Without `arg` the already resolved `step` is sent (C13's streams)."""
+    args = {'good': int(bool(good)), 'edge': edge, 'twopi': TWO_PI, 'endlo': TWO_PI - edge}
+    if arg is _RESOLVED:
+        args['step'] = step
+    else:
+        args['dstep'] = DEFAULT_STEP
+        if arg is not None:
+            args['step'] = arg
+    return proto.op('CV', args,
                     [list(map(float, phase_col)), None if mask_col is None else [int(bool(m)) for m in mask_col]])
 
 
